@@ -51,8 +51,12 @@ def main():
             print(sid, r["error"]); continue
         hit = r["target"] in r["reported_by"]
         print(f"{sid:48s} target {'HIT ' if hit else 'MISS'} reported_by={','.join(r['reported_by']) or '-'} errors={','.join(r['analysis_error']) or '-'}")
-    if not sys.argv[1:]:
-        json.dump(res, open(os.path.join(SEEDED, "RESULTS.json"), "w"), indent=1)
+    out = os.path.join(SEEDED, "RESULTS.json")
+    if sys.argv[1:] and os.path.exists(out):  # a partial run updates its own rows only
+        allres = json.load(open(out))
+        allres.update({k: v for k, v in res.items() if "error" not in v})
+        res = dict(sorted(allres.items()))
+    json.dump(res, open(out, "w"), indent=1)
 
 if __name__ == "__main__":
     main()
